@@ -38,6 +38,7 @@ CONSTANTS GuardMode,    \* "safe" | "c717"
           Depth,        \* Leg D (SpecV): type nesting depth 1 | 2
           Width,        \* Leg D (SpecV): container width bound
           Rich,         \* Leg D (SpecV): TRUE = pairs/structs/maps over all inner types
+          TruncAll,     \* Leg D (SpecV): TRUE = also load every strict prefix of every archive
           MaxChunks,    \* Leg D (SpecC): chunks per archive
           ChunkLens     \* Leg D (SpecC): payload lengths offered
 
@@ -275,7 +276,7 @@ InitV ==
 \* load the archive as it is, or any strict prefix of it
 LoadStep ==
     /\ phase = "v0"
-    /\ \E cut \in 0..Len(buf) :
+    /\ \E cut \in (IF TruncAll THEN 0..Len(buf) ELSE {Len(buf)}) :
          LET b == SubSeq(buf, 1, cut)
              r == Load(ty, b, 0)
          IN /\ buf' = b
